@@ -240,7 +240,7 @@ func (i *Interceptor) loop() {
 	for {
 		select {
 		case now := <-ticker.C:
-			for len(queue) > 0 && i.limit.Budget(now) > 8*float64(queue[0].len()) {
+			for len(queue) > 0 && i.limit.Budget(now) >= 8*float64(queue[0].len()) {
 				i.limit.AllowN(now, 8*queue[0].len())
 				var next packet
 				next, queue = queue[0], queue[1:]
